@@ -23,7 +23,7 @@ import (
 )
 
 func init() {
-	pbt.Describe("list: abstract file lists from the C05 generator (all name, mode and size variety, 15 kinds of root go.mod) presented in a generated order: every entry is classified valid/omitted/invalid exactly as the reference classifier says (vendored packages with the pre-1.24 and 1.24+ variants, nested modules incl. mis-cased and non-regular go.mod, VCS metadata file, symlinks and irregular files omitted; unclean, absolute, ill-formed, colliding, mis-cased go.mod, oversized go.mod/LICENSE invalid; first report per path); SizeError asserted outside the band where an oversized (hence invalid) go.mod/LICENSE is counted into the total; permuting the list leaves Omitted unchanged and, when no collision group exists, Valid and Invalid too. dir: real directory trees written to a scratch directory containing only regular files and directories and no VCS metadata directories (vendor directories at the root and nested, vendor/modules.txt, pkg/vendor/vendor.go, nested go.mod incl. GO.MOD and a directory named go.mod, .hg_archival.txt, reserved and odd names): CreateFromDir(d) and Create(files of d listed by the harness, lexically and shuffled) fail or succeed together with the same entry set and contents; CheckDir(d) and CheckFiles(files of d) report the same valid and invalid paths. Non-trivial: list = at least one entry omitted by the vendor or nested-module rule and at least one valid; dir = tree with >=2 directory levels and >=1 omitted file. Distinct by JSON rendering.",
+	pbt.Describe("list: abstract file lists from the C05 generator (all name, mode and size variety, 15 kinds of root go.mod) presented in a generated order: every entry is classified valid/omitted/invalid exactly as the reference classifier says (vendored packages with the pre-1.24 and 1.24+ variants, nested modules incl. mis-cased and non-regular go.mod, VCS metadata file, symlinks and irregular files omitted; unclean, absolute, ill-formed, colliding, mis-cased go.mod, oversized go.mod/LICENSE invalid; first report per path); SizeError asserted outside the band where an oversized (hence invalid) go.mod/LICENSE is counted into the total; permuting the list leaves Omitted unchanged and, when no collision group exists, Valid and Invalid too. dir: real directory trees written to a scratch directory containing only regular files and directories and no VCS metadata directories (vendor directories at the root and nested, vendor/modules.txt, pkg/vendor/vendor.go, nested go.mod incl. GO.MOD and a directory named go.mod, .hg_archival.txt, regular files named .git/.hg/.svn/.bzr/.gitignore, reserved and odd names): CreateFromDir(d) and Create(files of d listed by the harness, lexically and shuffled) fail or succeed together with the same entry set and contents; CheckDir(d) and CheckFiles(files of d) report the same valid and invalid paths. Non-trivial: list = at least one entry omitted by the vendor or nested-module rule and at least one valid; dir = tree with >=2 directory levels and >=1 omitted file. Distinct by JSON rendering.",
 		"zipref reference classifier", "directory trees contain only regular files and directories and no .git/.hg/.svn/.bzr directories (the property's domain)", "case-fold-colliding names are not written to real trees (they are exercised by the list sub)")
 }
 
@@ -213,9 +213,15 @@ type dirCase struct {
 	Shuffle       []int
 }
 
-var treeDirs = []string{"", "", "a/", "a/b/", "vendor/", "vendor/x/", "vendor/x/y/", "pkg/vendor/", "pkg/vendor/z/", "pkg/vendor/z/w/", "vendor/vendor/", "sub/", "sub/deep/", "sub/vendor/q/", "sub2/", "sub2/inner/", "nest/go.mod/", "internal/", "é/", "x y/", "weird[1]/"}
+var treeDirs = []string{"", "", "a/", "a/b/", "vendor/", "vendor/x/", "vendor/x/y/", "pkg/vendor/", "pkg/vendor/z/", "pkg/vendor/z/w/", "vendor/vendor/", "sub/", "sub/deep/", "sub/vendor/q/", "sub2/", "sub2/inner/", "nest/go.mod/", "internal/", "é/", "x y/", "weird[1]/",
+	// vendor directories below top-level names that sort before and after "go.mod"
+	"cmd/vendor/", "a/vendor/", "api/vendor/x/", "Go/vendor/", "_x/vendor/", "go/vendor/", "gp/vendor/", "zz/vendor/"}
 var treeFiles = []string{"x.go", "y.go", "go.mod", "go.mod", "LICENSE", "README.md", "modules.txt", "vendor.go", "vendor", ".hg_archival.txt", "é.go", "a b.txt", ".hidden", "z", "a~1", "main_test.go"}
 var oddTreeFiles = []string{"aux.go", "nul", "f|g", "trailing.", "GO.MOD", "tab\there", "Go.Mod"}
+
+// regular files whose names are those of VCS metadata directories (a submodule's or linked worktree's
+// ".git" file): the directory rule does not apply to them
+var vcsNamedFiles = []string{".git", ".hg", ".svn", ".bzr", ".gitignore", ".gitmodules"}
 
 func genDir(t *rapid.T) dirCase {
 	c := dirCase{Path: "example.com/m", Version: "v1.0.0", GoMod: -1}
@@ -229,6 +235,9 @@ func genDir(t *rapid.T) dirCase {
 		base := treeFiles[gen.Uniform(t, len(treeFiles), "file")]
 		if gen.Chance(t, 4, "oddname") {
 			base = oddTreeFiles[gen.Uniform(t, len(oddTreeFiles), "oddfile")]
+		}
+		if gen.Chance(t, 6, "vcsname") {
+			base = vcsNamedFiles[gen.Uniform(t, len(vcsNamedFiles), "vcsfile")]
 		}
 		name := treeDirs[gen.Uniform(t, len(treeDirs), "dir")] + base
 		if name == "go.mod" {
@@ -283,8 +292,10 @@ func okDir(c dirCase) bool {
 		if f.Mode != "file" || n == "" || filepath.Clean(n) != n || strings.HasPrefix(n, "/") || strings.HasPrefix(n, "..") || strings.ContainsAny(n, "\x00") || seen[strings.ToLower(n)] || len(f.Content) > 4096 {
 			return false
 		}
-		for _, el := range strings.Split(n, "/") {
-			if el == ".git" || el == ".hg" || el == ".svn" || el == ".bzr" || len(el) > 200 {
+		els := strings.Split(n, "/")
+		for i, el := range els {
+			isDir := i < len(els)-1
+			if isDir && (el == ".git" || el == ".hg" || el == ".svn" || el == ".bzr") || len(el) > 200 {
 				return false
 			}
 		}
